@@ -27,6 +27,9 @@ def assert_repo_import():
     f = os.path.realpath(jellyfysh.__file__)
     if not f.startswith(os.path.realpath(REPO) + os.sep):
         raise Inconclusive(f"jellyfysh imported from {f}, not from {REPO}")
+    # the C extensions are always the ones built from the working tree (never the stale .so files lying in /repo)
+    from vf import native
+    native.inject()
 
 
 class Inconclusive(Exception):
@@ -186,7 +189,8 @@ class Ctx(Acc):
         self.required.append((counter, minimum))
 
     # -- worker fan-out ------------------------------------------------------------------------------------------
-    def run_workers(self, target, jobs, timeout=3600, env=None, nproc=None, merge=True, prefix=None):
+    def run_workers(self, target, jobs, timeout=3600, env=None, nproc=None, merge=True, prefix=None,
+                    classify_failure=None):
         """Run `target` ("vf.monitors.cXX:func") once per job (a JSON-able kwargs dict), each in a fresh subprocess.
 
         A worker that dies, times out or prints no result makes the run inconclusive (never 'held', never 'violated').
@@ -207,6 +211,10 @@ class Ctx(Acc):
                 return i, None, f"watchdog {timeout}s fired for job {i} {jobs[i]}"
             if not os.path.exists(out):
                 tail = p.stderr.decode(errors="replace")[-1500:]
+                if classify_failure:
+                    c = classify_failure(jobs[i], p.returncode, p.stderr.decode(errors="replace"))
+                    if c:
+                        return i, {"_violation": c}, None
                 return i, None, f"worker {i} rc={p.returncode} produced no result: {tail}"
             with open(out) as f:
                 r = json.load(f)
@@ -220,6 +228,10 @@ class Ctx(Acc):
                 if err:
                     self.inconclusive.append(err)
                     self.count("workers_failed")
+                elif "_violation" in r:
+                    key, what, witness = r["_violation"]
+                    self.violation(key, what, witness)
+                    self.count("workers_died_with_report")
                 else:
                     results[i] = r
                     self.count("workers_ok")
@@ -240,13 +252,15 @@ class Ctx(Acc):
         replay_paths = []
         if unknown:
             os.makedirs(os.path.join(HOME, "replays"), exist_ok=True)
+            rdir = os.environ.get("VERIF_EVIDENCE_DIR", os.path.join(HOME, "replays"))
+            os.makedirs(rdir, exist_ok=True)
             seen = set()
             for v in unknown:
                 if v["key"] in seen:
                     continue
                 seen.add(v["key"])
                 name = f"{self.prop}-{self.tier}-{self.seed}-{v['key'].split(':')[-1]}.json"
-                path = os.path.join(HOME, "replays", name)
+                path = os.path.join(rdir, name)
                 with open(path, "w") as f:
                     json.dump({"property": self.prop, "tier": self.tier, "seed": self.seed, **v}, f, indent=1)
                 replay_paths.append((v, path))
@@ -269,8 +283,9 @@ class Ctx(Acc):
         ev = {"property_id": self.prop, "tier": self.tier, "seed": int(self.seed), "level": self.level,
               "coverage": cov, "assumptions": self.assumptions, "wall_s": round(time.time() - self.t0, 2),
               "violations": int(unknown_count)}
-        os.makedirs(os.path.join(HOME, "evidence"), exist_ok=True)
-        with open(os.path.join(HOME, "evidence", f"{self.prop}.json"), "w") as f:
+        evdir = os.environ.get("VERIF_EVIDENCE_DIR", os.path.join(HOME, "evidence"))  # redirected only by tools/trymut.sh
+        os.makedirs(evdir, exist_ok=True)
+        with open(os.path.join(evdir, f"{self.prop}.json"), "w") as f:
             json.dump(ev, f, indent=1, sort_keys=False)
             f.write("\n")
         for ln in lines:
